@@ -399,6 +399,10 @@ def b_copy_(P, s, a, b, c, name):
                     # a low-bit source quantized along the OTHER axis (same payload shape, another layout of the scales)
                     src_ = quantize_weight(x, d.qtype, -1 if d.axis == 0 else 0, None)
                     return dict(f=lambda d, s_: d.copy_(s_), ops=[("p", i), ("x", 0)], extra=[("fresh", src_)], klass="requant", inplace=0)
+                if a % 12 == 5 and d.ndim == 2 and d.shape[0] > 1:
+                    # a ONE-ROW low-bit source quantized the same way, broadcast along the rows of the destination
+                    src_ = quantize_weight(x[:1].contiguous(), d.qtype, d.axis, d._group_size)
+                    return dict(f=lambda d, s_: d.copy_(s_), ops=[("p", i), ("x", 0)], extra=[("fresh", src_)], klass="requant", inplace=0)
                 # (a source quantized the same way is COPIED: codes, scales and zero-points arrive unaltered)
                 return dict(f=lambda d, s_: d.copy_(s_), ops=[("p", i), ("x", 0)], extra=[("fresh" if isq(src_) else "plain", src_)], klass="move" if isq(src_) else "requant", inplace=0)
         i = P.pick(s[0], lambda v: isinstance(v, QBytesTensor) and v.ndim >= 1)
